@@ -302,6 +302,12 @@ def TA.remove (t : TA) (h : Host) : TA :=
   let r := cowRemove t.hosts h.addr
   let t1 : TA := { t with hosts := r.1 }
   { (if r.2 then t1.refresh else t1) with pol := t.pol.remove h }
+/-- `AddHosts(hosts)` (what `Session.init` calls with the hosts of the first ring refresh, the policy having the
+method): `for host: t.hosts.add(host)` (results ignored); `resetTokenRing; updateAllReplicas` ONCE and
+UNCONDITIONALLY (also when no host was new); then `for host: fallback.AddHost(host)` -/
+def TA.addHosts (t : TA) (hs : List Host) : TA :=
+  let t1 : TA := { t with hosts := hs.foldl (fun l h => (cowAdd l h).1) t.hosts }
+  { t1.refresh with pol := hs.foldl Pol.add t.pol }
 def TA.hostUp (t : TA) (h : Host) : TA := { t with pol := t.pol.add h }
 def TA.hostDown (t : TA) (h : Host) : TA := { t with pol := t.pol.remove h }
 
